@@ -58,7 +58,12 @@ ASSUMPTIONS = [
     "no project() above the IDF root (scratch tree on tmpfs); --exclude-submodules not used",
 ]
 
-PLACES = ("", "components/c", "examples/pa", "examples/pa/main", "examples/pa/nested", "examples/pb", "examples/common")
+PLACES = ("", "components/c", "examples/pa", "examples/pa/main", "examples/pa/nested", "examples/pb", "examples/common",
+          # deeper directories below a non-root project directory and below the orphan directory: they only carry defaults
+          # files of the "chain" layouts (a lookup in D, then in D/S, then in D/S/T)
+          "examples/pa/main/sub", "examples/pa/main/sub/deep", "examples/common/sub", "examples/common/sub/deep")
+N_ENUM_PLACES = 7
+CHAINS = (("examples/pa/main", "examples/pa/main/sub", "examples/pa/main/sub/deep"), ("examples/common", "examples/common/sub", "examples/common/sub/deep"))
 PROJECTS = ("examples/pa", "examples/pa/nested", "examples/pb")
 DEFAULTS_NAME = {
     "": "sdkconfig.defaults",
@@ -68,6 +73,10 @@ DEFAULTS_NAME = {
     "examples/pa/nested": "sdkconfig.defaults",
     "examples/pb": "sdkconfig.ci",
     "examples/common": "sdkconfig.defaults",
+    "examples/pa/main/sub": "sdkconfig.defaults",
+    "examples/pa/main/sub/deep": "sdkconfig.ci.deep",
+    "examples/common/sub": "sdkconfig.ci",
+    "examples/common/sub/deep": "sdkconfig.defaults",
 }
 CONTENTS = ("X", "Y", "XY")
 INCLUDE_DIRS_QUICK = (("examples",), ("examples/pa",))
@@ -145,7 +154,7 @@ def spec_verdict(layout: dict, variant: tuple, fplace: str, literal_root: bool =
 
 def _assignments(max_files: int, contents: Tuple[str, ...], min_files: int = 0):
     for k in range(min_files, max_files + 1):
-        for places in itertools.combinations(range(len(PLACES)), k):
+        for places in itertools.combinations(range(N_ENUM_PLACES), k):
             for cs in itertools.product(contents, repeat=k):
                 yield tuple(zip(places, cs))
 
@@ -199,6 +208,11 @@ def layouts(tier: str):
                     "renames": {PLACES[p]: c for p, c in ren},
                     "defaults": {PLACES[p]: c for p, c in dfl},
                 }
+    # chain layouts: defaults files in D, D/S and D/S/T (D not a project root), rename files for X at <= 2 places
+    for chain in CHAINS:
+        for ren in _assignments(2, ("X",)):
+            for rootproj in (False, True):
+                yield {"rootproj": rootproj, "renames": {PLACES[p]: c for p, c in ren}, "defaults": {p: "X" for p in chain}}
 
 
 def variants(layout: dict, tier: str) -> List[Tuple[tuple, bool]]:
